@@ -5,6 +5,7 @@
 //	               spec/TraceWallet.tla) and the comparison with the model's prediction.
 //	record n len [t]  n random histories of len calls on real wallets, logged as TraceWallet events (only history t).
 //	bench          timing of the scrypt-bound calls.
+//	ctrprobe       observation outside C43's domain: legacy aes-256-ctr keys and wrong passwords (not used by the check).
 package main
 
 import (
@@ -47,6 +48,8 @@ func main() {
 		walletRecord(atoi(os.Args[2]), atoi(os.Args[3]), only)
 	case "bench":
 		walletBench()
+	case "ctrprobe":
+		ctrProbe()
 	default:
 		vio.Fatal("unknown command %s", os.Args[1])
 	}
